@@ -253,6 +253,26 @@ fn diseq_programs(quick: bool) -> Vec<Program> {
             }
         }
     }
+    // one strong disequality that subsumes MANY stored weaker ones (4..6), all variables in the
+    // answer: whichever order the store is iterated in, every weaker one must go
+    for k in 4..=6u32 {
+        let weak: Vec<G> = (1..=k).map(|i| G::Neq(T::list(vec![x.clone(), T::V(i)]), T::list(vec![T::I(1), T::I(1)]))).collect();
+        let strong = G::Neq(x.clone(), T::I(1));
+        let mut a = weak.clone();
+        a.push(strong.clone());
+        out.push(Program { nq: k + 1, body: a });
+        let mut b = vec![strong.clone()];
+        b.extend(weak.iter().cloned());
+        out.push(Program { nq: k + 1, body: b });
+        let mut c2 = weak.clone();
+        c2.insert(2, strong.clone());
+        out.push(Program { nq: k + 1, body: c2 });
+        // the strong one arises from a binding: [x, w] != [1, 2] with w == 2 afterwards
+        let mut d = weak.clone();
+        d.push(G::Neq(T::list(vec![x.clone(), T::V(1)]), T::list(vec![T::I(1), T::I(2)])));
+        d.push(G::Eq(T::V(1), T::I(2)));
+        out.push(Program { nq: k + 1, body: d });
+    }
     out
 }
 
